@@ -405,6 +405,25 @@ def units(ctx):
                 fb = np.array(_flat(cb), dtype=float)
                 if fa.shape != fb.shape or (fa.size and np.abs(fa - fb).max() > 1e-12 * max(1.0, float(np.abs(fb).max()))):
                     ctx.fail(cid, site.split('/')[0], 'mismatch', P, "unit='deg' with %r differs from unit='rad' with %r*pi/180" % (deg, deg))
+    # element / scalar type of the angle: a whole-number angle given as Python int, NumPy integer or single-precision scalar is the
+    # same angle ("integer and float element types")
+    STY = (('int', int), ('np.int64', np.int64), ('np.int32', np.int32), ('np.float32', np.float32), ('np.float64', np.float64))
+    for (site, f), av, u, (tn, ty) in itertools.product(angle_entries(), (2, -3, 0, 90), ('rad', 'deg'), STY):
+        cid = 'C15/scalartype/%s/a=%d/%s/%s' % (site, av, u, tn)
+        if not ctx.want(cid):
+            continue
+        ctx.case(cid, key=cid, trivial=(av == 0))
+        P = dict(entry=site.split('/')[0], what='scalar-type', stype=tn, unit=u)
+        okf, rf = call(f, float(av), u)
+        if not okf:
+            continue
+        ok, r = call(f, ty(av), u)
+        if not ok:
+            ctx.fail(cid, site.split('/')[0], 'raises:' + type(r).__name__, P, 'angle %d given as %s raised %r (the float works)' % (av, tn, r))
+            continue
+        fa, fb = np.array(_flat(canon(r)), dtype=float), np.array(_flat(canon(rf)), dtype=float)
+        if fa.shape != fb.shape or (fa.size and np.abs(fa - fb).max() > 1e-6 * max(1.0, float(np.abs(fb).max()))):
+            ctx.fail(cid, site.split('/')[0], 'mismatch', P, 'angle %d given as %s differs from the same angle as float' % (av, tn))
     for site, f in angle_entries():
         for bad in ('grad', 'degrees', 'DEG', ''):
             cid = 'C15/badunit/%s/%s' % (site, bad or 'empty')
